@@ -18,6 +18,9 @@ EXPLANATION = (
     'when the whole parity class is in use; (d) every request entry point tests the incoming id against the table '
     'before it registers a handler, and the test raises the REJECTED error without touching the table. '
     'Not decided: nothing essential - the clauses hold per operation.')
+EXPLANATION_ADDED = ('(e) a new request is never offered to the stream table before its handle_* method (shared routing rule) and the table is written only after id 0 was refused.')
+EXPLANATION = EXPLANATION.replace(' Not decided', ' ' + EXPLANATION_ADDED + ' Not decided', 1) \
+    if ' Not decided' in EXPLANATION else EXPLANATION + ' ' + EXPLANATION_ADDED
 ASSUMPTIONS = COMMON_ASSUMPTIONS
 
 
